@@ -2,7 +2,7 @@ SPEC = dict(
     id="C07",
     bin="c07",
     coq_dir="C07",
-    coq_targets=["C05/Proofs.vo", "C05/Examples.vo", "C07/Proofs.vo", "C07/Examples.vo"],
+    coq_targets=["C05/Proofs.vo", "C05/Sort.vo", "C05/Examples.vo", "C07/Proofs.vo", "C07/Equiv.vo", "C07/Examples.vo"],
     allowed_axioms=[],
     level_text=("Unbounded Coq theorems about the C05 model of write-fonts' object store and packer: the ordered object map built by "
                 "Graph::from_obj_store is independent of the HashMap iteration order (any permutation), so is the outcome of the "
